@@ -443,12 +443,8 @@ func (w *World) recoverEdges(g *FG) []Edge {
 // deferDoes decides whether a deferred call performs ev when it runs at a NORMAL exit:
 // the part of a deferred closure guarded by recover() != nil runs on panic exits only.
 func (w *World) deferDoes(d *ssa.Defer, ev Ev, must bool, depth int, does func(ssa.Instruction) bool) bool {
-	mc, ok := d.Call.Value.(*ssa.MakeClosure)
-	if !ok {
-		return does(d)
-	}
-	f, ok := mc.Fn.(*ssa.Function)
-	if !ok || f.Blocks == nil {
+	f := deferredFn(d)
+	if f == nil || f.Blocks == nil {
 		return does(d)
 	}
 	g := w.FG(f)
